@@ -163,6 +163,14 @@ CheckLayer(L) ==
         ELSE <<"viol", "C20.assign " \o what \o
                   (IF lowered # {} THEN ": channels lowered" ELSE ": chosen counts not met")>>)
 
+\* TRUE iff the verdict of CheckModel is a known-finding or drift verdict (not a violation): recomputed from
+\* the layer classes because TLA+ strings have no prefix operator
+ModelViolates(t) ==
+    LET vs  == [i \in DOMAIN t.layers |-> CheckLayer(t.layers[i])]
+        cls == {vs[i][1] : i \in DOMAIN vs}
+    IN  "viol" \in cls \/ (t.ca > t.cb + Slack(t.cb) /\ cls \cap {"F18", "F27", "F28"} = {})
+IsPrefixedFor(t) == ~ModelViolates(t)
+
 CheckModel(t) ==
     LET vs    == [i \in DOMAIN t.layers |-> CheckLayer(t.layers[i])]
         cls   == {vs[i][1] : i \in DOMAIN vs}
@@ -228,8 +236,55 @@ CheckMLife(t) ==
                      \o " is not in the state the specification predicts " \o ToString(pred) \o " " \o hs
             ELSE "ok"
 
+\* ------------------------------------------------------------------ "multi" traces
+\* [k |-> "multi", geo, tab, ownb, owna, obs]  a chain of refinable layers (a state of ReassignMulti) refined by
+\* the real function:  geo[l] = [kind, h, w, cin];  tab[l][j+1] = cost (1/100 cycle) the real per-layer cost
+\* function gives layer l with j channels at the lower precision;  ownb / owna = cost of every layer before /
+\* after as reported by the layer itself;  obs = the "model" record incl. ann = <<announced before, after>>.
+\* Property: every clause of a "model" trace (in particular cost after <= before) and the announced costs are
+\* the measured ones.  Predictions (drift): the chosen counts are a cheapest candidate of the layer's OWN table,
+\* no layer costs more than before, the table is the NE16 latency of the specification.
+CheckMulti(t) ==
+    LET o     == t.obs
+        base  == CheckModel(o)
+        NLy   == Len(o.layers)
+        bits(l)   == o.layers[l].bits
+        C(l)      == Len(o.layers[l].before)
+        low(l)    == CHOOSE p \in 1..2 : \A q \in 1..2 : bits(l)[p] <= bits(l)[q]
+        chosen(l) == RoundVecU(o.layers[l].bestu)
+        n0(l)     == Counts(o.layers[l].before, 2)
+        T(l, v)   == t.tab[l][v[low(l)] + 1]                       \* own table, indexed by the low-precision count
+        cand(l)   == RangeOf(Visits(n0(l), OrderOf(bits(l)), bits(l), 0)) \cup {n0(l)}
+        annbad    == Has(o, "ann") /\ (Abs(o.ann[1] - o.cb) > Slack(o.cb) \/ Abs(o.ann[2] - o.ca) > Slack(o.ca))
+        shape     == NLy = Len(t.geo) /\ NLy = Len(t.tab) /\ \A l \in 1..NLy : Len(bits(l)) = 2 /\ Len(t.tab[l]) = C(l) + 1
+        sane(l)   == IsComposition(chosen(l), C(l))
+        notmin    == {l \in 1..NLy : sane(l) /\ \E v \in cand(l) : T(l, chosen(l)) > T(l, v) + Slack(T(l, v))}
+        up        == {l \in 1..NLy : t.owna[l] > t.ownb[l] + Slack(t.ownb[l])}
+        incons    == {l \in 1..NLy : sane(l) /\ CountsMet(o.layers[l].after, chosen(l))
+                                      /\ Abs(t.owna[l] - T(l, chosen(l))) > Slack(t.owna[l])}
+        formula   == {l \in 1..NLy : \E j \in 0..C(l) :
+                         t.tab[l][j + 1] # 100 * LayerCost(t.geo[l], [p \in 1..2 |-> IF p = low(l) THEN j ELSE C(l) - j], bits(l))}
+        any(S)    == CHOOSE x \in S : TRUE
+        lname(l)  == o.layers[l].name
+    IN  IF ~shape THEN "trace: multi shape"
+        ELSE IF base # "ok" /\ ~IsPrefixedFor(o) THEN base
+        ELSE IF annbad
+        THEN "C20.announced: the function announces a model cost of " \o ToString(o.ann) \o " (before, after; 1/100 cycle) but the model costs "
+                 \o ToString(<<o.cb, o.ca>>) \o "; per layer before " \o ToString(t.ownb) \o " after " \o ToString(t.owna)
+                 \o ", chosen " \o ToString([l \in 1..NLy |-> chosen(l)]) \o ", geometry " \o ToString(t.geo)
+        ELSE IF base # "ok" THEN base
+        ELSE IF notmin # {}
+        THEN "drift:C20 multi: layer " \o lname(any(notmin)) \o " chose " \o ToString(chosen(any(notmin)))
+                 \o " which is not a cheapest candidate of its own cost table " \o ToString(t.tab[any(notmin)])
+        ELSE IF up # {} THEN "drift:C20 multi: layer " \o lname(any(up)) \o " costs more after the refinement"
+        ELSE IF incons # {} THEN "drift:C20 multi: cost of layer " \o lname(any(incons)) \o " after differs from its table entry"
+        ELSE IF formula # {} THEN "drift:C20 multi: cost table of layer " \o lname(any(formula)) \o " differs from the NE16 latency of the specification: "
+                                      \o ToString(t.tab[any(formula)])
+        ELSE "ok"
+
 Check(t) ==
     IF ~Has(t, "k") THEN "trace: missing kind"
+    ELSE IF t.k = "multi" THEN CheckMulti(t)
     ELSE IF t.k = "mlife" THEN CheckMLife(t)
     ELSE IF t.k = "fn" THEN CheckFn(t)
     ELSE IF t.k = "model" THEN CheckModel(t)
